@@ -527,7 +527,14 @@ class Exec(object):
                 return self.call(path, fv, [], {})
             raise Unsupported('property %s without source' % name)
         if isinstance(raw, (staticmethod, classmethod)):
-            raise Unsupported('static/classmethod %s' % name)
+            # accessed through an instance: a staticmethod is the plain function, a classmethod is bound to the class
+            fn = raw.__func__
+            fv = self.lift_obj(fn)
+            if isinstance(fv, VFunc):
+                if isinstance(raw, classmethod):
+                    fv = VFunc(fv.node, fv.modname, fv.qualname, bound=VConc(cls), pyfunc=fv.pyfunc)
+                return [(path, fv)]
+            raise Unsupported('static/classmethod %s without source' % name)
         if isinstance(raw, (types.MethodDescriptorType, types.WrapperDescriptorType,
                             types.BuiltinFunctionType)):
             return [(path, VBoundExt(obj, name))]
